@@ -1,0 +1,82 @@
+//go:build verif
+// +build verif
+
+package band
+
+// This file is only compiled with the build tag "verif". It gives the
+// verification harness a read-only, deep copy of a band's internal tables.
+
+// VerifDataRate is a data-rate together with its direction flags.
+type VerifDataRate struct {
+	DataRate
+	Uplink   bool
+	Downlink bool
+}
+
+// VerifChannel is a channel together with its state flags.
+type VerifChannel struct {
+	Channel
+	Enabled bool
+	Custom  bool
+}
+
+// VerifBandSnapshot is a deep copy of the tables of a band.
+type VerifBandSnapshot struct {
+	SupportsExtraChannels bool
+	CFListMinDR           int
+	CFListMaxDR           int
+	DataRates             map[int]VerifDataRate
+	MaxPayloadSizePerDR   map[string]map[string]map[int]MaxPayloadSize
+	RX1DataRateTable      map[int][]int
+	UplinkChannels        []VerifChannel
+	DownlinkChannels      []VerifChannel
+	TXPowerOffsets        []int
+}
+
+type verifBander interface {
+	verifBand() *band
+}
+
+func (b *band) verifBand() *band { return b }
+
+// VerifSnapshot returns a deep copy of the internal tables of b, or false
+// when b is not one of the band implementations of this package.
+func VerifSnapshot(b Band) (VerifBandSnapshot, bool) {
+	vb, ok := b.(verifBander)
+	if !ok {
+		return VerifBandSnapshot{}, false
+	}
+	in := vb.verifBand()
+
+	out := VerifBandSnapshot{
+		SupportsExtraChannels: in.supportsExtraChannels,
+		CFListMinDR:           in.cFListMinDR,
+		CFListMaxDR:           in.cFListMaxDR,
+		DataRates:             make(map[int]VerifDataRate),
+		MaxPayloadSizePerDR:   make(map[string]map[string]map[int]MaxPayloadSize),
+		RX1DataRateTable:      make(map[int][]int),
+		TXPowerOffsets:        append([]int(nil), in.txPowerOffsets...),
+	}
+	for i, dr := range in.dataRates {
+		out.DataRates[i] = VerifDataRate{DataRate: dr, Uplink: dr.uplink, Downlink: dr.downlink}
+	}
+	for v, revs := range in.maxPayloadSizePerDR {
+		out.MaxPayloadSizePerDR[v] = make(map[string]map[int]MaxPayloadSize)
+		for r, drs := range revs {
+			out.MaxPayloadSizePerDR[v][r] = make(map[int]MaxPayloadSize)
+			for dr, s := range drs {
+				out.MaxPayloadSizePerDR[v][r][dr] = s
+			}
+		}
+	}
+	for dr, row := range in.rx1DataRateTable {
+		out.RX1DataRateTable[dr] = append([]int(nil), row...)
+	}
+	for _, c := range in.uplinkChannels {
+		out.UplinkChannels = append(out.UplinkChannels, VerifChannel{Channel: c, Enabled: c.enabled, Custom: c.custom})
+	}
+	for _, c := range in.downlinkChannels {
+		out.DownlinkChannels = append(out.DownlinkChannels, VerifChannel{Channel: c, Enabled: c.enabled, Custom: c.custom})
+	}
+	return out, true
+}
